@@ -98,8 +98,14 @@ CASES = [
     ("Debug: the trailing empty rows are counted from the top (`chunks` for `rchunks`)", "mutation", MOD,
      ".rchunks(SIZE)", ".chunks(SIZE)",
      ["Debug_fmt_src_eq_model"]),
-    ("from_pattern: rows padded to 63 cells", "mutation", MOD,
-     "                    .chain(iter::repeat(None))\n                    .take(SIZE)", "                    .chain(iter::repeat(None))\n                    .take(SIZE - 1)",
+    ("from_pattern: `_` instead of the blank stands for an untouched cell", "mutation", MOD,
+     "' ' => None,", "'_' => None,",
+     ["MockDisplay_from_pattern_src_eq_model"]),
+    ("from_pattern: a pattern of width 64 is refused", "mutation", MOD,
+     "pattern_width <= SIZE,", "pattern_width < SIZE,",
+     ["MockDisplay_from_pattern_src_eq_model"]),
+    ("from_pattern: the rows are cut to 32 cells", "mutation", MOD,
+     "                    .chain(iter::repeat(None))\n                    .take(SIZE)", "                    .chain(iter::repeat(None))\n                    .take(32)",
      ["MockDisplay_from_pattern_src_eq_model"]),
     ("BinaryColor: `.` and `#` exchanged in char_to_color", "mutation", CM,
      "'.' => BinaryColor::Off,\n            '#' => BinaryColor::On,", "'#' => BinaryColor::Off,\n            '.' => BinaryColor::On,",
